@@ -123,7 +123,9 @@ def _gen_step(ci, dom, nfiles, script=None):
     def g(draw, w):
         roots = w.roots()
         if len(roots) < nfiles:
-            return {"t": "new", "r": len(roots), "id": w.next_id()}
+            # one object per file: (re)open the first file that has no live object
+            have = {w.handles[i].res for i in roots}
+            return {"t": "new", "r": min(r for r in range(nfiles) if r not in have), "id": w.next_id()}
         while script:
             kind, r = script.pop(0)
             tgt = roots[r % len(roots)]
